@@ -489,6 +489,8 @@ def plan(tier, seed):
         {'id': 'm3-mutate', 'input': {'chains': 'H'}, 'opts': ['-ff', 'martini3001', '-mutate', 'A-GLY29:SER', '-mutate', 'A-ALA7:TRP', '-mutate', 'A-ALA21:TRP', '-mutate', 'A-ALA24:TRP', '-mutate', 'A-ALA28:PHE', '-mutate', 'A-ALA35:TYR'], 'moves': []},
         {'id': 'm3-chains', 'input': {'chains': 'PSP'}, 'opts': ['-ff', 'martini3001'], 'moves': []},
         {'id': 'm3-go', 'input': {'chains': 'W'}, 'opts': ['-ff', 'martini3001', '-go', '-ss', 'C' * 20], 'moves': []},
+        {'id': 'm3-go-write', 'input': {'chains': 'S'}, 'opts': ['-ff', 'martini3001', '-go', '-go-write-file', 'contacts.out', '-ss', 'C' * 29],
+         'moves': [{'perm': ROTATIONS[1][0], 'sg': ROTATIONS[1][1], 'sh': [12000, -7000, 3500]}]},
         {'id': 'm3-water-bias', 'input': {'chains': 'W'}, 'opts': ['-ff', 'martini3001', '-ss', 'CHHHHHHHCCCCCCCCCCCC', '-water-bias',
                                                                     '-water-bias-eps', 'H:3.6', 'C:2.1'], 'moves': []},
         {'id': 'm22-ptyr', 'input': {'ptyr': True, 'noh': True, 'noh_keep': 'H2'}, 'opts': ['-ff', 'martini22'], 'moves': []},
